@@ -210,6 +210,13 @@ def _coqc_file(path):
     return r.returncode, r.stdout
 
 
+def model_applies(mod, case):
+    """Cases outside the domain of the Coq model (calendar arithmetic, finam's own components ...) are run on the
+    implementation and judged by the property monitor only; they are counted separately in the evidence."""
+    f = getattr(mod, "model_applies", None)
+    return True if f is None else bool(f(case))
+
+
 def run_correspondence(mod, cases, obss, shard=300):
     """Write case files, evaluate the model inside Coq, return (mismatch indices, errors)."""
     d = CASES / mod.ID
@@ -220,7 +227,8 @@ def run_correspondence(mod, cases, obss, shard=300):
     shard = getattr(mod, "SHARD", shard)
     # cases whose implementation run failed inside the harness are not evaluated by the model: they are
     # reported as harness errors (and count as disagreements) by check_property
-    live = [i for i in range(len(cases)) if not (isinstance(obss[i], dict) and "harness_error" in obss[i])]
+    live = [i for i in range(len(cases)) if not (isinstance(obss[i], dict) and "harness_error" in obss[i])
+            and model_applies(mod, cases[i])]
     for k in range(0, len(live), shard):
         idxs = live[k:k + shard]
         terms = []
@@ -545,7 +553,9 @@ def check_property(mod, tier, seed, replay=None):
             "evaluations": len(cases),
             "distinct_nontrivial": len(nontriv),
             "rule": mod.RULE,
-            "traces_validated_against_impl": len(cases) - len(mism) - len([i for i in harness_errors if i not in mism]),
+            "traces_validated_against_impl": len([c for c in cases if model_applies(mod, c)]) - len(mism)
+                                             - len([i for i in harness_errors if i not in mism and model_applies(mod, cases[i])]),
+            "cases_judged_by_the_property_monitor_only": len([c for c in cases if not model_applies(mod, c)]),
             "correspondence_mismatches": len(mism),
             "monitor_failures": len(mon_fail),
             "harness_errors": len(harness_errors),
